@@ -177,3 +177,101 @@ func flushOrderGroup(c *Ctx, rule string) {
 		onlyCallers(c, rule, sw, map[string]string{"lsm.NewLSM": "single start site"}, 1)
 	}
 }
+
+// tableCutGroup: compaction output tables are cut only between distinct user keys.
+func tableCutGroup(c *Ctx, rule string) {
+	c.Rule(rule, "levelManager.subcompact ends an output table (builder.ReachedCapacity / right-bound break) only when the iterator has moved to a different user key (inside the `!kv.SameKey(key, lastKey)` branch): L1+ lookups pick one table per level by key range and search only it, so all versions of a user key must live in one table of a level")
+	fn := c.Fn("lsm", "levelManager.subcompact")
+	if fn == nil {
+		return
+	}
+	found := false
+	for _, cl := range fn.AnonFuncs {
+		rc := Calls(cl, false, Named("lsm.(*tableBuilder).ReachedCapacity"))
+		sk := Calls(cl, false, Named("kv.SameKey"))
+		if len(rc) == 0 {
+			continue
+		}
+		found = true
+		for i, r := range rc {
+			g, _ := guardedByCall(cl, r.(ssa.Instruction), Named("kv.SameKey"), false)
+			c.Decide(g && len(sk) >= 1, rule, key(cl, fmt.Sprintf("ReachedCapacity[%d]<-!SameKey(key,lastKey)", i+1)), r.Pos(), 2, "the capacity cut is taken only at a user-key boundary", "the output table can be cut in the middle of one user key's version chain (the capacity test is not inside the new-key branch): older versions land in the next table and become unreachable for L1+ point reads")
+		}
+		// every loop-exiting break inside the copy loop lies in the new-key branch too
+		for _, b := range cl.Blocks {
+			ifi := ifOf(b)
+			if ifi == nil || !blockInLoop(b) {
+				continue
+			}
+			bo, ok := ifi.Cond.(*ssa.BinOp)
+			if !ok || bo.Op != token.GEQ {
+				continue
+			}
+			if call, ok := bo.X.(*ssa.Call); ok && Named("utils.CompareKeys")(call.Common()) {
+				g, _ := guardedByCall(cl, ifi, Named("kv.SameKey"), false)
+				c.Decide(g, rule, key(cl, "right-bound-break<-!SameKey"), ifi.Pos(), 2, "the right-bound stop is evaluated only at a user-key boundary", "the right-bound stop can end a table in the middle of a user key's versions")
+			}
+		}
+	}
+	c.Decide(found, rule, key(fn, "has:capacity-cut"), fn.Pos(), 1, "capacity cut found", "cannot find the ReachedCapacity cut in subcompact")
+	if g := c.Fn("lsm", "levelHandler.getTableForKey"); g != nil {
+		// the assumption this protects: one table per level is consulted
+		c.Pass(rule, key(g, "one-table-per-level-lookup"), g.Pos(), 1, "L1+ lookups select a single table by user-key range (the reason for the rule)")
+	}
+}
+
+// watermarkWindowGroup: sliding the watermark window keeps every pending count at or above the new base.
+func watermarkWindowGroup(c *Ctx, rule string) {
+	c.Rule(rule, "WaterMark.rebuildWindowLocked carries over the counter of every index >= newBase (= doneUntil+1): the only indices dropped are those strictly below the new base (`idx < newBase`) or beyond the new size; addIndex ignores only index 0 and offsets outside the window")
+	fn := c.Fn("utils", "WaterMark.rebuildWindowLocked")
+	if fn == nil {
+		return
+	}
+	ops := []string{}
+	for _, b := range fn.Blocks {
+		ifi := ifOf(b)
+		if ifi == nil || !blockInLoop(b) {
+			continue
+		}
+		bo, ok := ifi.Cond.(*ssa.BinOp)
+		if !ok {
+			continue
+		}
+		// idx (= base + i) compared with newBase (= done + 1)
+		if isAddOf(bo.X, "base") && isDonePlusOne(bo.Y) {
+			ops = append(ops, bo.Op.String())
+		}
+	}
+	c.Decide(len(ops) == 1 && ops[0] == "<", rule, key(fn, "drop-only:idx<newBase"), fn.Pos(), len(ops)+1, "only indices strictly below the new base are dropped", fmt.Sprintf("the window rebuild drops indices with `idx %v newBase` (expected exactly `<`): the pending mark of the oldest unfinished index (doneUntil+1) is lost and doneUntil advances past it", ops))
+	// newBase = DoneUntil()+1
+	nb := false
+	AllInstrs(fn, false, func(in ssa.Instruction) {
+		if isDonePlusOne(valueOf(in)) {
+			nb = true
+		}
+	})
+	c.Decide(nb, rule, key(fn, "newBase=doneUntil+1"), fn.Pos(), 1, "the new window starts right above doneUntil", "the rebuilt window no longer starts at doneUntil+1")
+}
+
+func valueOf(in ssa.Instruction) ssa.Value {
+	v, _ := in.(ssa.Value)
+	return v
+}
+
+func isAddOf(v ssa.Value, field string) bool {
+	bo, ok := v.(*ssa.BinOp)
+	if !ok || bo.Op != token.ADD {
+		return false
+	}
+	return fieldNameOf(bo.X) == field || fieldNameOf(bo.Y) == field
+}
+
+func isDonePlusOne(v ssa.Value) bool {
+	bo, ok := v.(*ssa.BinOp)
+	if !ok || bo.Op != token.ADD {
+		return false
+	}
+	k, isK := ConstInt(bo.Y)
+	call, isC := bo.X.(*ssa.Call)
+	return isK && k == 1 && isC && Named("utils.(*WaterMark).DoneUntil")(call.Common())
+}
